@@ -22,7 +22,34 @@ def make(k, rewriter):
     return C()
 
 
+def make_ctx(k, rewriter):
+    """A project-style Config: the TypedDict limit is a project setting that exists only inside cli_context (after set-up);
+    outside it the answer is a large fallback."""
+    import contextlib
+
+    base = make(k, rewriter).__class__
+
+    class Ctx(base):
+        _inside = False
+
+        @contextlib.contextmanager
+        def cli_context(self, command):
+            type(self)._inside = True
+            try:
+                yield
+            finally:
+                type(self)._inside = False
+
+        def max_typed_dict_size(self):
+            return k if type(self)._inside else 10
+
+    return Ctx()
+
+
 def __getattr__(name):
+    if name.startswith("KCTX") and "_" in name:
+        k, rw = name[4:].split("_", 1)
+        return make_ctx(int(k), rw)
     if name.startswith("K") and "_" in name:
         k, rw = name[1:].split("_", 1)
         return make(int(k), rw)
